@@ -119,13 +119,13 @@ theorem ownOp_of_effOp {inh : Option Op} {c : DNode} {op : Op} (hinh : inh = non
     · simp only [Option.some.injEq] at h
       exact absurd h.symm hne
 
-theorem setMetas_metas (x : DNode) : x.setMetas x.metas = x := by cases x <;> rfl
-theorem setMetas_setMetas (x : DNode) (m m' : List Meta) : (x.setMetas m).setMetas m' = x.setMetas m' := by cases x <;> rfl
+theorem setMetas_metas13 (x : DNode) : x.setMetas x.metas = x := by cases x <;> rfl
+theorem setMetas_setMetas13 (x : DNode) (m m' : List Meta) : (x.setMetas m).setMetas m' = x.setMetas m' := by cases x <;> rfl
 
 /-- swapping a one-element operation twice -/
 theorem changeOp_changeOp_std {t : DNode} {b : Bytes} (h : t.metas = [("operation", b)]) (op1 op2 : Op) :
     changeOp (changeOp t op1) op2 = t.setMetas [("operation", bs op2.str)] := by
-  simp [changeOp, h, eraseMeta, setMetas_setMetas]
+  simp [changeOp, h, eraseMeta, setMetas_setMetas13]
 
 theorem invol_create {S : Schema} {inh : Option Op} {e : Option DNode} {c : DNode} (hinh : inh = none ∨ inh = some .none)
     (hex : exactE S inh e c = true) (hstd : stdN c = true) (hop : effOp c inh = some .create) :
@@ -147,7 +147,7 @@ theorem invol_create {S : Schema} {inh : Option Op} {e : Option DNode} {c : DNod
   have : (revDupL c.kids) = ((revDup c).setMetas [("operation", bs Op.create.str)]).kids := by simp [kids_revDup]
   rw [this, setKids_kids]
   have h2 : [("operation", bs Op.create.str)] = (revDup c).metas := by rw [hmet]; rfl
-  rw [h2, setMetas_metas]
+  rw [h2, setMetas_metas13]
 
 theorem invol_delete {S : Schema} {inh : Option Op} {e : Option DNode} {c : DNode} (hinh : inh = none ∨ inh = some .none)
     (hex : exactE S inh e c = true) (hstd : stdN c = true) (hop : effOp c inh = some .delete) :
@@ -169,7 +169,7 @@ theorem invol_delete {S : Schema} {inh : Option Op} {e : Option DNode} {c : DNod
   have : (revDupL c.kids) = ((revDup c).setMetas [("operation", bs Op.delete.str)]).kids := by simp [kids_revDup]
   rw [this, setKids_kids]
   have h2 : [("operation", bs Op.delete.str)] = (revDup c).metas := by rw [hmet]; rfl
-  rw [h2, setMetas_metas]
+  rw [h2, setMetas_metas13]
 
 end LyModel.Diff
 
@@ -180,7 +180,7 @@ theorem term_eq {x y : DNode} (hx : x.isTerm = true) (hy : y.isTerm = true) (h1 
     (h3 : x.metas = y.metas) (h4 : x.val = y.val) : x = y := by
   cases x <;> cases y <;> simp_all [DNode.isTerm, DNode.sid, DNode.flags, DNode.metas, DNode.val]
 
-theorem flags_setDflt (x : DNode) (b : Bool) : (x.setDflt b).flags = { x.flags with dflt := b } := by
+theorem flags_setDflt13 (x : DNode) (b : Bool) : (x.setDflt b).flags = { x.flags with dflt := b } := by
   simp [DNode.setDflt]
 
 theorem getMeta_isSome_find {t : DNode} {name : String} {v : Bytes} (h : getMeta t name = some v) :
@@ -217,7 +217,7 @@ theorem revDefault_invol {t : DNode} (ht : t.isTerm = true) {b : Bool} (h : getM
     · intro name hne
       simp only [getMeta_def, metas_setMetas]
       exact find?_setMetaVal_ne (Ne.symm hne) _ _
-    · simp [flags_setDflt]
+    · simp [flags_setDflt13]
     · have hg : getMeta ((t.setDflt b).setMetas (setMetaVal "orig-default" (boolBytes t.flags.dflt) t.metas)) "orig-default" =
           some (boolBytes t.flags.dflt) := by
         simp only [getMeta_def, metas_setMetas]
@@ -231,7 +231,7 @@ theorem revDefault_invol {t : DNode} (ht : t.isTerm = true) {b : Bool} (h : getM
       simp only [hne, Bool.false_eq_true, ↓reduceIte]
       congr 1
       apply term_eq (by simpa using ht) ht (by simp)
-      · simp only [flags_setMetas, flags_setDflt]
+      · simp only [flags_setMetas, flags_setDflt13]
       · rw [metas_setMetas, setMetaVal_setMetaVal]
         exact setMetaVal_same (by rw [← getMeta_def]; exact h)
       · simp
@@ -286,7 +286,7 @@ theorem rev_value_default_comm {y : DNode} (ht : y.isTerm = true) {a : Bytes} {b
     rw [revValue_spec hg (by simpa using hne)]
     congr 1
     apply term_eq (by simpa using ht) (by simpa using ht) (by simp)
-    · simp [flags_setDflt]
+    · simp [flags_setDflt13]
     · simp only [metas_setMetas, val_setMetas, val_setDflt]
       exact setMetaVal_comm (by decide) _ _ _
     · have h1 : ((y.setDflt b).setMetas (setMetaVal "orig-default" (boolBytes y.flags.dflt) y.metas)).isTerm = true := by
